@@ -3,7 +3,7 @@
    (Gen/ProfileData.v, Gen/RoutingData.v, Gen/BaseTables.v) on this run. *)
 From Coq Require Import NArith ZArith List Bool String.
 From FitV Require Import Model.Values Model.Base Model.Profile Spec.ProfileWf Proofs.ProfileProofs
-  Gen.ProfileData Gen.RoutingData Gen.Consts.
+  Gen.ProfileData Gen.RoutingData Gen.Consts Gen.SharedState Proofs.C15Tables.
 Import ListNotations.
 Local Open Scope N_scope.
 
@@ -45,6 +45,17 @@ Print Assumptions C15_container_members_known.
 Theorem C15_no_float_fields : forall gmn fdn pf, get_field gmn fdn = Some pf ->
   b_float (fit_base (pf_t pf)) = Some false /\ exists s, b_size (fit_base (pf_t pf)) = Some s /\ 1 <= s <= 4.
 Proof. exact no_float_fields. Qed.
+
+(* "everywhere" includes "at every time": the lookup tables and the base-type tables the statements above were
+   evaluated on are read and never written by any code reachable from the decoding and encoding entry points
+   (Gen/SharedState.v, regenerated from the source on every check), so what holds of them at the start of the
+   process holds whenever a decoder or encoder consults them *)
+Theorem C15_tables_never_written : forall v, In v profile_tables ->
+  In v read_only_globals /\ ~ In v written_globals /\ ~ In v sync_globals_used.
+Proof. exact profile_tables_read_only. Qed.
+Print Assumptions C15_tables_never_written.
+Example C15_tables_example : In "fit._fields"%string profile_tables /\ In "fit._fields"%string read_only_globals.
+Proof. split; vm_compute; tauto. Qed.
 
 (* non-vacuity: record.heart_rate (message 20, field 3) is a uint8 scalar *)
 Example C15_example : exists pf, get_field 20 3 = Some pf /\ gotype_of_fit (pf_t pf) = TU 8.
